@@ -9,13 +9,13 @@ ROOT = os.path.dirname(os.path.dirname(os.path.abspath(__file__)))
 CHECKS = {
     "C01": (
         "compiler-as-oracle layout monitor: offset_of!/executed addr_of on host + nightly windows-msvc layout dump vs declared addresses",
-        "Builds hundreds (quick) to thousands (thorough) of generated accepted multi-module programs plus an exhaustive small space with the real pyxis, compiles the emitted structs with the real compiler (host at width 8; rustc_dump_layout for i686/x86_64-pc-windows-msvc at widths 4/8) and compares every named field's compiled offset with the declared address or the compiled end of the previous field. Exploration: held on the executions observed.",
+        "Builds hundreds (quick) to thousands (thorough) of generated accepted multi-module programs plus an exhaustive small space with the real pyxis, compiles the emitted structs with the real compiler (host at width 8; rustc_dump_layout for i686/x86_64-pc-windows-msvc at widths 4/8) and compares every named field's compiled offset with the declared address or the compiled end of the previous field. Three hostile families feed the same oracle with inputs that ought to be rejected (1-3 edits of valid programs; types whose fields want more alignment than a pointer, or whose declared size suits the fields only, embedded at pointer-aligned offsets; hierarchies in which a later base, not the first, has a vftable): whatever is accepted is judged. Exploration: held on the executions observed.",
         "Trusted: rustc layout computation and offset_of!, the nightly layout dump, syn as reader of emitted text. No number computed by pyxis is trusted.",
         "DESIGN.md §6 C01",
     ),
     "C02": (
         "compiler-as-oracle size/alignment monitor: registry vs size_of/align_of (host + windows-msvc dump) vs declared attributes vs emitted size-check literal",
-        "Same generated workload as C01; for every emitted struct, enum and vftable struct the resolved (size, alignment) read from the public registry, the declared #[size]/#[align]/#[packed] and the literal of the emitted size check are compared with what the real compiler computes on the host and for *-pc-windows-msvc at both widths. Exploration.",
+        "Same generated workload as C01; for every emitted struct, enum and vftable struct the resolved (size, alignment) read from the public registry, the declared #[size]/#[align]/#[packed] and the literal of the emitted size check are compared with what the real compiler computes on the host and for *-pc-windows-msvc at both widths. Includes the hostile families of C01 (over-aligned empty and zero-sized inner types among them). Exploration.",
         "Trusted: rustc layout computation; nightly layout dump; that the msvc dump equals MSVC repr(C).",
         "DESIGN.md §6 C02",
     ),
@@ -27,25 +27,25 @@ CHECKS = {
     ),
     "C04": (
         "recording-stub execution monitor (native + valgrind memcheck + Miri, ASan in thorough) of emitted virtual wrappers on raw-memory objects and tables; exhaustive slot-position sweep; compiled slot offsets at widths 4/8",
-        "Executes every emitted virtual wrapper of generated accepted types against a raw fake vftable whose entries are distinct typed recording stubs and judges the recorded (stub id, receiver, arguments, return) offline: exactly one entry, the declared slot, receiver = object, arguments in order, result returned; sanitizers watch for out-of-table or misaligned reads. Slot positions are checked exhaustively for all blocks within stated bounds against the reference slot rule (contradictions must be rejected), and compiled slot byte offsets via the windows-msvc layout dump at both widths. Exploration, exhaustive for the slot sweep.",
+        "Executes every emitted virtual wrapper of generated accepted types against a raw fake vftable whose entries are distinct typed recording stubs and judges the recorded (stub id, receiver, arguments, return) offline: exactly one entry, the declared slot, receiver = object, arguments in order, result returned; a compiler error located inside the emitted text of an accepted input is a violation (the wrapper cannot be invoked at all); parameter names include the wrappers' own locals (`f`, `_f`, `this`) and a virtual function may also claim an #[address] (hostile); sanitizers watch for out-of-table or misaligned reads. Slot positions are checked exhaustively for all blocks within stated bounds against the reference slot rule (contradictions must be rejected), and compiled slot byte offsets via the windows-msvc layout dump at both widths. Exploration, exhaustive for the slot sweep.",
         "Trusted: Miri/valgrind/ASan; rustc; the reference slot rule (refprog::slots); execution is on the 64-bit host with ABI strings normalised to C; assumption stated in the property that a vftable-carrying first base sits at offset 0.",
         "DESIGN.md §6 C04",
     ),
     "C05": (
         "trampoline execution monitor (native + valgrind) of address-bound wrappers at mmap'ed absolute addresses + emitted-text comparison + negative cases",
-        "Maps a recording trampoline at each declared absolute address, calls the emitted wrapper with random argument values and checks the recorded address, receiver, argument registers/stack words (under width masks) and returned token; for every wrapper (including unmappable addresses) the address literal, parameter list, fn-pointer type, call argument order and return type are read from the emitted text; functions without address or with unresolvable parameter/return types must be rejected. Exploration.",
+        "Maps a recording trampoline at each declared absolute address, calls the emitted wrapper with random argument values and checks the recorded address, receiver, argument registers/stack words (under width masks) and returned token; parameters named `f`/`_f`/`this` and a `this: *const T` next to the receiver are part of the workload, and a compiler error inside the emitted text is a violation; for every wrapper (including unmappable addresses) the address literal, parameter list, fn-pointer type, call argument order and return type are read from the emitted text; functions without address or with unresolvable parameter/return types must be rejected. Exploration.",
         "Trusted: SysV x86-64 calling convention for the normalised extern \"C\" pointer types; syn; valgrind.",
         "DESIGN.md §6 C05",
     ),
     "C06": (
         "enumerated inheritance shapes + single-slot mutants; executed vftable() accessor on raw objects (native, valgrind, Miri); emitted struct shape",
-        "Enumerates chain depth x bases x vftable presence x derived block shapes at both widths, requires every single-slot mutation of a compatible derived table to be rejected (vacuity guarded by requiring the compatible table to be accepted), checks that owners have exactly one private pointer-typed vftable field first and derived types none, and executes the accessor to compare with the pointer stored in the base sub-object. Exploration with an enumerated core.",
+        "Enumerates chain depth x bases x vftable presence x derived block shapes at both widths, requires every single-slot mutation of a compatible derived table to be rejected (vacuity guarded by requiring the compatible table to be accepted), including mutants at placeholder and underscore-named slots, empty blocks, and a receiver replaced by an ordinary `this` parameter; shapes include empty `vftable {}` roots and first bases that are empty, zero-sized or without a table while a later base has one; checks that owners have exactly one private pointer-typed vftable field first and derived types none, and executes the accessor to compare with the pointer stored in the base sub-object. Exploration with an enumerated core.",
         "Trusted: Miri/valgrind; rustc; syn; reference vftable-ownership rule.",
         "DESIGN.md §6 C06",
     ),
     "C07": (
         "recording-stub/trampoline execution monitor of re-exposed base members and AsRef/AsMut on raw objects (native, valgrind, Miri) + emitted method/impl sets vs reference method-set model",
-        "For generated hierarchies (depth 1-4, up to three bases, diamonds, name clashes, private members) every re-exposed method must exist under the reference name, forward to the right field and, when executed, enter the original callee with receiver = object + compiler-computed sub-object offset, same arguments and result; AsRef/AsMut must return object + sub-object offset for base types occurring once and be absent otherwise. Exploration.",
+        "For generated hierarchies (depth 1-4, up to three bases, diamonds, name clashes, private members, extern types as bases, same-named base types from different modules) every re-exposed method must exist under the reference name, forward to the right field and, when executed, enter the original callee with receiver = object + compiler-computed sub-object offset, same arguments and result; AsRef/AsMut must return object + sub-object offset for base types occurring once and be absent otherwise. Exploration.",
         "Trusted: reference method-set model (refprog::associated, naming rule first-come with <field>_<name> on clash); offset_of! for sub-object offsets; Miri/valgrind.",
         "DESIGN.md §6 C07",
     ),
@@ -69,13 +69,13 @@ CHECKS = {
     ),
     "C11": (
         "exhaustive scoping-rule monitor: emitted paths and resolved sizes vs reference binder over all import orders/subsets",
-        "For three providers of the same short name with distinct sizes, enumerates every ordered selection of type imports x module imports x interleaving x local definition x built-in name x consumer path x width (plus random sequences with repeated/bogus imports), builds with the real pyxis and compares the emitted fully qualified paths (field, pointer, array, signature, extern value) and the resolved size of the referring type with the definition the scoping rule selects; an unbound name must be rejected. Exhaustive within the stated product (thorough), strided in quick.",
+        "For three providers of the same short name with distinct sizes, enumerates every ordered selection of type imports x module imports x interleaving x local definition x built-in name x consumer path x width (plus random sequences with repeated/bogus imports), self-imports of the module's own definition, and names of generated vftable structs (own, imported by name, in imported modules; blocks with and without functions or bases) under twelve attempt orders, builds with the real pyxis and compares the emitted fully qualified paths (field, pointer, array, signature, extern value) and the resolved size of the referring type with the definition the scoping rule selects; an unbound name must be rejected. Exhaustive within the stated product (thorough), strided in quick.",
         "Trusted: reference binder refprog::Env::bind (type import last-wins, built-in, same module, module imports first-wins).",
         "DESIGN.md §6 C11",
     ),
     "C12": (
-        "crash/resource monitor: hostile inputs in worker child processes under catch_unwind, counting allocator with budget and hard cap, iteration bound from the hook trace, watchdog; parse-error position oracle",
-        "Feeds tens of thousands (quick) to hundreds of thousands (thorough) of inputs in 16 categories (token/byte soup, token-level mutations and splices of valid files, boundary integers in every numeric position, recursive and deeply nested types, odd identifiers, stray tokens, file-system faults, API sequences, extern types at every power-of-two size/alignment as sole field, array element and base) to the real parser, SemanticState API and pyxis::build inside worker processes; a panic, abort, stack overflow, allocation beyond 64 MiB + 64 KiB per input byte (hard cap 1 GiB), more than items+1 resolution iterations, or a parse error without a correct file:line:col is a violation; a watchdog firing is inconclusive. Exploration.",
+        "crash/resource monitor: hostile inputs in worker child processes under catch_unwind, counting allocator with budget and hard cap, iteration bound from the hook trace, watchdog; per-input CPU-time limit inside the worker (30 s); parse-error position oracle",
+        "Feeds tens of thousands (quick) to hundreds of thousands (thorough) of inputs in 16 categories (token/byte soup, token-level mutations and splices of valid files, boundary integers in every numeric position, recursive and deeply nested types, odd identifiers, stray tokens, file-system faults, API sequences, extern types at every power-of-two size/alignment as sole field, array element and base) to the real parser, SemanticState API and pyxis::build inside worker processes; a panic, abort, stack overflow, allocation beyond 64 MiB + 64 KiB per input byte (hard cap 1 GiB), more than items+1 resolution iterations, more than 30 s of CPU time on one input (inputs take milliseconds), or a parse error without a correct file:line:col is a violation; a watchdog firing is inconclusive. Exploration.",
         "Trusted: the counting global allocator of the harness; debug assertions and overflow checks enabled in the pyxis build under test; nesting depth limited to 1000 (inputs of a few kilobytes).",
         "DESIGN.md §6 C12",
     ),
@@ -87,19 +87,19 @@ CHECKS = {
     ),
     "C14": (
         "directory-level output monitor: pyxis::build on generated trees, listing + syn item multiset + prologue/epilogue token comparison; collision inputs; registry hook events",
-        "Writes hundreds (quick) to thousands (thorough) of generated multi-module trees (nested directories, empty modules, rust and foreign backend blocks) to real directories, runs pyxis::build and compares the output directory listing and each file's top-level items with the declarations; five kinds of colliding declarations must be rejected (hook event RegistryAdd{replaced: different} records a silent overwrite). Exploration.",
+        "Writes hundreds (quick) to thousands (thorough) of generated multi-module trees (nested directories, empty modules, rust and foreign backend blocks) to real directories, runs pyxis::build and compares the output directory listing and each file's top-level items with the declarations; input directories spelt relative to the working directory (`./x`, `x/`, repeated names, dotted file names, glob metacharacters) are built in child processes; sections ending in line comments, twin extern values at one address and multi-round resolution inputs are included; a module path added twice must not replace the first; five kinds of colliding declarations must be rejected (hook event RegistryAdd{replaced: different} records a silent overwrite). Exploration.",
         "Trusted: syn as reader of emitted text; the reference list of expected items (types, enums, one <T>Vftable per vftable block, one get_<name> per extern value).",
         "DESIGN.md §6 C14",
     ),
     "C15": (
         "mapped-memory execution monitor (native + valgrind) of singleton and extern-value accessors + emitted-text comparison + negatives",
-        "Maps data pages at the declared absolute addresses, stores a pointer (or null) / an enum value / a byte pattern there and executes the emitted accessors: struct get() must yield the stored pointer or None, enum get() the stored value, get_<name>() a reference to exactly the declared address of the declared type; address literals and types are also read from the text for every declaration; extern values without address must be rejected. Exploration.",
+        "Maps data pages at the declared absolute addresses, stores a pointer (or null) / an enum value / a byte pattern there and executes the emitted accessors: struct get() must yield the stored pointer or None, also while the slot is rewritten between calls (pointer 1, pointer 2, null, in rotating order), enum get() the stored value, get_<name>() a reference to exactly the declared address of the declared type; address literals and types are also read from the text for every declaration; extern values without address must be rejected. Exploration.",
         "Trusted: mmap with MAP_FIXED_NOREPLACE; valgrind; syn.",
         "DESIGN.md §6 C15",
     ),
     "C16": (
         "emitted-text monitor of ABI strings (syn) over generated programs + exhaustive convention x receiver x depth product + i686-pc-windows-msvc acceptance by nightly rustc",
-        "Reads the ABI string of every emitted vftable slot type and address-bound wrapper fn-pointer for generated accepted programs and for the complete product of conventions, receivers, chain depths and widths, and compares with the declared or default convention; misspelt names must be rejected; the un-normalised struct definitions are compiled by nightly rustc for i686-pc-windows-msvc where all seven conventions are real. Exhaustive for the product, sampled beyond.",
+        "Reads the ABI string of every emitted vftable slot type and address-bound wrapper fn-pointer for generated accepted programs and for the complete product of conventions, receivers, chain depths and widths, and compares with the declared or default convention; misspelt names must be rejected; so must names written in a malformed attribute (identifier, number, two arguments, none, `= "..."`), alone or next to a valid one, on any function of the program; a calling_convention attribute on an impl BLOCK changes nothing; the un-normalised struct definitions are compiled by nightly rustc for i686-pc-windows-msvc where all seven conventions are real. Exhaustive for the product, sampled beyond.",
         "Trusted: syn; reference default rule (thiscall with receiver, system without, placeholders thiscall); nightly rustc's ABI validation.",
         "DESIGN.md §6 C16",
     ),
@@ -117,7 +117,7 @@ CHECKS = {
     ),
     "C20": (
         "metamorphic output monitor: bytes of all output files for a description and its meaning-preserving rewrites",
-        "Rewrites generated accepted descriptions with each rewrite of the listed family (explicit address already held, gap <-> address, natural #[size], natural #[index], explicit enum value, re-spelt numbers through the text path, reordered definitions), singly, at every site and in random combinations, and requires the rewritten description to be accepted with byte-identical output. Exploration.",
+        "Rewrites generated accepted descriptions with each rewrite of the listed family (explicit address already held, gap <-> address, natural #[size], natural #[index], explicit enum value, re-spelt numbers through the text path, reordered definitions) — the reordering also over definitions whose names are equal up to case, leading zeros, raw prefix or a trailing underscore —, singly, at every site and in random combinations, and requires the rewritten description to be accepted with byte-identical output. Exploration.",
         "Trusted: the reference layout supplies the addresses/sizes the description already implies (cases it cannot lay out are skipped).",
         "DESIGN.md §6 C20",
     ),
